@@ -397,6 +397,31 @@ func TestC01Blocks(t *testing.T) {
 			_ = g.Aggregate(qframe.Aggregation{Fn: "sum", Column: "f1"}, qframe.Aggregation{Fn: "max", Column: "i1"}, qframe.Aggregation{Fn: "count", Column: "s1", As: "n"})
 			_, _ = g.QFrames()
 		}},
+		{"groups handed out by QFrames stay what they were while Aggregate runs (two big groups, one group of all rows)", func(qf qframe.QFrame) {
+			for _, cols := range [][]string{{"b1"}, nil, {"e1"}} {
+				var g qframe.Grouper
+				if cols == nil {
+					g = qf.GroupBy()
+				} else {
+					g = qf.GroupBy(groupby.Columns(cols...), groupby.Null(true))
+				}
+				frames, err := g.QFrames()
+				if err != nil {
+					panic(err)
+				}
+				before := make([]uint64, len(frames))
+				for i, f := range frames {
+					before[i] = quickSnap(f)
+				}
+				_ = g.Aggregate(qframe.Aggregation{Fn: "sum", Column: "i1"}, qframe.Aggregation{Fn: hx.AggLastI, Column: "id", As: "lastid"}, qframe.Aggregation{Fn: "count", Column: "s1", As: "n"})
+				_ = g.Aggregate(qframe.Aggregation{Fn: "max", Column: "f1"})
+				for i, f := range frames {
+					if quickSnap(f) != before[i] {
+						panic(fmt.Sprintf("VIOLATION: group frame %d of GroupBy(%q).QFrames() changed while Aggregate ran on the grouper", i, cols))
+					}
+				}
+			}
+		}},
 		{"GroupBy enum key", func(qf qframe.QFrame) {
 			_ = qf.GroupBy(groupby.Columns("e1"), groupby.Null(true)).Aggregate(qframe.Aggregation{Fn: "majority", Column: "b1"})
 		}},
